@@ -35,14 +35,25 @@ def aligned_steps(tier):
         hs.append(h)
     return hs
 
+def filter_frames():
+    # frames EMITTED by the averaging filter are packets too: two of the C10 schedule instances
+    # (1-pixel images, so the f32 image is 4 bytes: size field must be 96 + 4 rounded up to 104)
+    _sp = importlib.util.spec_from_file_location("c10", os.path.join(VERIF, "props", "C10.py"))
+    _c10 = importlib.util.module_from_spec(_sp); _c10.H = H; _c10.VERIF = VERIF; _c10.REPO = REPO
+    _sp.loader.exec_module(_c10)
+    hs = [_c10.sched(1, 2, (2,), 0, 1), _c10.sched(1, 2, (1, 1), 1, 8)]
+    for h in hs:
+        h.what = "frames emitted by the averaging filter (size field, type, shape of each f32 frame as the sink receives it): " + h.what
+    return hs
+
 def harnesses(tier, findings):
-    hs = [framing(), framing2(), iteration()] + aligned_steps(tier)
+    hs = [framing(), framing2(), iteration()] + filter_frames() + aligned_steps(tier)
     return hs
 
 META = dict(
     level="model_checking",
     bounds=dict(quick="framing: every ImageShape with plane stride <= 2^37 and every sample type; alignment induction: 3 reader slots, 64-bit state; iteration by the size field: frame_iterator, vfslice split and trash walk on packets of 1..3 frames with symbolic sizes; packet structure also checked by the mock storage / client in the unit and runtime harnesses (C04, C06)",
                 thorough="same"),
-    outside="clients that consume a byte count that is not a sum of whole frames; frame averaging output (checked under C10)",
+    outside="clients that consume a byte count that is not a sum of whole frames; filter-emitted frames only for 1-pixel images (4-byte f32 image: the one residue modulo 8 that differs from the aligned case)",
     assumptions=["mock camera with symbolic shape; ring without readers for the framing harness", "as C01 for the induction steps"],
 )
